@@ -247,13 +247,13 @@ def _sh_unary(tier):
 def _sh_boolean(tier):
     if tier == "quick":
         return product_pins(ma=[1, 2], mb=[0, 1], sa=[1, 3], fa=[2], sb=[1], fb=[1, 2], bsym=[0, 1])
-    return product_pins(ma=[0, 1, 2], mb=[0, 1, 2], sa=[1, 3], fa=[1, 2, 3], sb=[0, 1, 3])
+    return product_pins(ma=[1, 2], mb=[0, 1, 2], sa=[1, 3], fa=[2, 3], sb=[1], fb=[1, 2], bsym=[0, 1])
 
 
 def _sh_rational(tier):
     if tier == "quick":
         return product_pins(ma=[1], mb=[0, 1], sa=[1, 3], fa=[2], sb=[1], fb=[1, 2], bsym=[0, 1])
-    return product_pins(ma=[0, 1, 2], mb=[0, 1], sa=[1, 3], fa=[1, 2, 3], sb=[0, 1, 3])
+    return product_pins(ma=[1, 2], mb=[0, 1], sa=[1, 3], fa=[2], sb=[1], fb=[1, 2], bsym=[0, 1])
 
 
 def _sh_self(tier):
@@ -277,11 +277,11 @@ CONDS = [
     Cond("C03", c03_boolean, _sh_boolean,
          {"quick": "ordered pairs A (1-2 edges over {a}, eps allowed, starts {0} or {0,1}, final {1}) x B (0-1 edges "
                    "over {a} or {b}, start {0}, final {0} or {1}), same state names: get_intersection, get_difference",
-          "thorough": "A <=2 edges, B <=2 edges, more masks incl. B without start state; also & and -"},
+          "thorough": "A 1-2 edges (finals {1}/{0,1}), B <=2 edges; also & and -"},
          FUNCS, RULE),
     Cond("C03", c03_rational, _sh_rational,
          {"quick": "ordered pairs A (1 edge) x B (0-1 edges), as above: union, concatenate",
-          "thorough": "A <=2 edges x B <=1 edge, more masks"},
+          "thorough": "A 1-2 edges x B 0-1 edges"},
          FUNCS, RULE),
     Cond("C03", c03_shapes, lambda tier: product_pins(shape=list(range(8))),
          {"quick": "8 hand-picked three-state operands (final state on a cycle through another state, eps, two start "
